@@ -418,9 +418,17 @@ impl Check for RwaCheck {
                     35..=54 => {
                         let ps: std::vec::Vec<(usize, usize)> = m.allow.iter().filter(|(_, v)| **v > 0).map(|(k, _)| *k).collect();
                         let (from, spender) = if ps.is_empty() || rng.chance(15) { (holder(rng), any(rng)) } else { *rng.pick(&ps) };
-                        Step::TransferFrom { spender, from, to: any(rng), amt: amt(rng, &m, from), signed: !rng.chance(5) }
+                        // a third of the allowance-based transfers aim at the allowance itself: exactly it, one more, one less
+                        let al = *m.allow.get(&(from, spender)).unwrap_or(&0);
+                        let a = if al > 0 && al < 1_000_000_000 && rng.chance(35) { (al + rng.below(3) as i128 - 1).max(0) } else { amt(rng, &m, from) };
+                        Step::TransferFrom { spender, from, to: any(rng), amt: a, signed: !rng.chance(5) }
                     }
-                    55..=64 => Step::Approve { owner: holder(rng), spender: any(rng), amt: if rng.chance(8) { 0 } else { 1_000_000_000 } },
+                    55..=64 => {
+                        let owner = holder(rng);
+                        // no allowance / one that never binds / one below the owner's balance (so that it does bind)
+                        let a = match rng.below(10) { 0 => 0, 1..=4 => 1_000_000_000, _ => 1 + rng.below(m.b(owner).clamp(1, 1_000_000) as u64) as i128 };
+                        Step::Approve { owner, spender: any(rng), amt: a }
+                    }
                     65..=72 => {
                         let from = holder(rng);
                         Step::Forced { from, to: any(rng), amt: amt(rng, &m, from) }
